@@ -321,6 +321,21 @@ Proof.
   destruct (sub_all I [F] (concat (map (keepf (t_prio u)) d))) as [v|]; [|discriminate]. exists v. auto.
 Qed.
 
+(** inside a class the dispatched tasks are its top ones *)
+Lemma same_class_order_y : forall s d Z (u t : dtask) (pr : N * N), MZ s d Z ->
+  In u (ready_tasks I) -> dispatched d (t_id u) = false -> In pr d ->
+  find_task (ready_tasks I) (fst pr) = Some t -> t_prio t < t_prio u -> t_rq u = Z -> t_rq t = Z -> False.
+Proof.
+  intros s d Z u t pr HM Hu Hundisp Hpr Hft Hprio HuZ HtZ.
+  assert (Hfl : In (t_prio u, t_id u) (flat_tasks (qz Z))).
+  { destruct (ready_cases R F assigned a0 a1 q0 q1 u Hu) as [_ H]. rewrite HuZ in H. exact H. }
+  pose proof (pop_waiting (flat_tasks (qz Z)) (N.to_nat (sol_x s 1 Z)) (flat_tasks_sorted _ (qz_wf q0 q1 Hw0 Hw1 Z))
+                (pop_x_le R F assigned a0 a1 q0 q1 s d Z HM) (t_prio u) (t_id u) Hfl
+                (waiting_not_first R F assigned a0 a1 q0 q1 s d Z HM u Hundisp)) as [H1 _].
+  pose proof (running_first R F assigned a0 a1 q0 q1 Hnd0 Hnd1 s d Z HM pr t Hpr Hft HtZ) as Hin.
+  specialize (H1 _ Hin). cbn [fst] in H1. lia.
+Qed.
+
 Section Two.
 Variables (s : sol) (d : dispatch) (X Y : N).
 Hypothesis HXY : (X = 0 /\ Y = 1) \/ (X = 1 /\ Y = 0).
